@@ -16,6 +16,7 @@ from sim.scenario import build_scenario
 from sim.tape import Tape
 
 from . import c06_sub, microworld_cancel
+from .c03 import _strict_eligible
 from .c04 import account
 from .common import await_site, base_evidence, bump, digest_of, pair_hash
 from .incremental import REACHED_AWAIT, run_incremental
@@ -57,6 +58,10 @@ class Stop:
         self.aborted_result_error = None
         self.post_pull = None
         self.use_hooks = True
+        # may this request legitimately leave work to be settled in the background? Only a
+        # synchronously raised failure (or a failing list source) does that; a plan without
+        # one must not produce background-settled resolver work at all
+        self.bg_legit = _can_orphan(rs)
         self.idle_signal = False
         self.close_delay = False
         if kind == "aclose":
@@ -112,7 +117,7 @@ class Stop:
             if e.owner == self.i and e.kind in ("res", "anext", "rt") and e.is_pending():
                 # work the executor deliberately settles in the background is never cancelled
                 # (by design); freezing it would only restate that
-                if _awaited_by_background(e, self, self.rr) is True:
+                if self.bg_legit and _awaited_by_background(e, self, self.rr) is True:
                     continue
                 e.hanging = True
                 self.frozen += 1
@@ -275,6 +280,7 @@ def evaluate(sim, scn, reqs, results, stops, status, knobs, stats=None):
                     # did the executor get as far as awaiting it (through with_abort_signal)?
                     "reached_await": any(id(e.fut) in REACHED_AWAIT for e in still),
                     "awaited_by_background_work": _awaited_by_background(still[0], stop, rr),
+                    "background_legit": stop.bg_legit,
                     "unconsumed_aborted_result": _unconsumed([stop], [rr]),
                     "reaction": stop.reaction if kind == "abort" else "-"},
                     {"request": i, "externals": [e.label for e in still][:5]}))
@@ -397,6 +403,23 @@ def _awaited_by_task(ext, tasks):
             todo.extend(_waiters_of(f))
     except Exception:  # noqa: BLE001
         pass
+    return False
+
+
+def _can_orphan(rs):
+    """Can the request's plan make the executor settle resolver work in the background?"""
+    pl = rs.planner
+    keys = {path[0] for path in pl.fields} | {path[0] for path in pl.items}
+    keys |= {path[0] for path in getattr(rs.result, "no_invoke", ())}
+    if not all(_strict_eligible(rs, k) for k in keys):
+        return True
+    # a stream over a synchronous iterable that is aborted drains the iterator and settles the
+    # awaitable items it still held in the background (on_abort of the stream item queue)
+    for path, ip in pl.items.items():
+        if ip.delivery != "sync":
+            lp = pl.lists.get(path[:-1])
+            if lp is None or lp.kind in ("list", "tuple", "gen"):
+                return True
     return False
 
 
@@ -608,7 +631,8 @@ def run_unit(seed=None, unit=None, tier="quick", stats=None):
             released = 0
             for e in sim.externals:
                 if e.hanging and e.is_pending() and e.owner < len(stops):
-                    if _awaited_by_background(e, stops[e.owner], results[e.owner]) is True:
+                    if (stops[e.owner].bg_legit and _awaited_by_background(
+                            e, stops[e.owner], results[e.owner]) is True):
                         e.hanging = False
                         released += 1
             if not released or status != "idle":
